@@ -144,6 +144,7 @@ class Ctx:
         self.violations = {}      # mech -> [ {what, case} ]
         self.violation_counts = {}
         self.inconclusive = []
+        self.last_case = None
         self.t0 = time.time()
         self._sample_every = 1
 
@@ -165,6 +166,7 @@ class Ctx:
     # -- reporting ----------------------------------------------------------------
     def evaluation(self, key, nontrivial=True, sample=None):
         self.evaluations += 1
+        self.last_case = sample if sample is not None else key
         if nontrivial:
             self.hashes.add(h64(key))
         if sample is not None and len(self.samples) < self.MAX_SAMPLES:
